@@ -533,4 +533,29 @@ example : build id (fun _ => true)
       "p".toList none none [] 0 50 = .error .tooDeep := by
   rfl
 
+/-! ## finding K8: a by-name input that starts with the declaring task's own namespace is taken as already qualified -/
+
+def k8Classes : Classes :=
+  [("K0".toList, { cid := "K0".toList, slug := "up".toList, params := [], inputs := [] }),
+   ("K1".toList, { cid := "K1".toList, slug := "down".toList, params := [], inputs := [{ ref := .byName "raw::up".toList }] })]
+
+/-- `p.json` uses `q.json as raw` and its task `down` takes `raw::up`; `main` mounts `p.json` under `outer` -/
+def k8FS (outer : String) : FS :=
+  [("q.json".toList, .single { data := [], tasks := ["K0".toList], excluded := [], uses := [] }),
+   ("p.json".toList, .single { data := [], tasks := ["K1".toList], excluded := [], uses := ["q.json as raw".toList] }),
+   ("main.json".toList, .single { data := [], tasks := [], excluded := [], uses := [("p.json as " ++ outer).toList] })]
+
+/-- mounted under any other namespace the pipeline builds, and `down` takes the `up` inside its own namespace … -/
+theorem k8_other_namespace_builds :
+    (build id (fun _ => true) (k8FS "zz") [] k8Classes "main.json".toList none none [] 0 8).toOption.map
+      (fun c => c.tasks.map (fun t => (t.full, t.inputs.map (·.1)))) =
+    some [("zz::raw::up".toList, []), ("zz::down".toList, ["zz::raw::up".toList])] := by
+  decide
+
+/-- … mounted under a namespace with the NAME OF ITS INNER NAMESPACE the reference `raw::up`, declared inside `raw`, is read as already
+qualified and looked up as `raw::up`, which does not exist: construction fails although `raw::raw::up` is there (finding K8) -/
+theorem k8_same_namespace_fails :
+    build id (fun _ => true) (k8FS "raw") [] k8Classes "main.json".toList none none [] 0 8 = .error .missingInput := by
+  rfl
+
 end TCV.C08
